@@ -321,9 +321,22 @@ func (cb *shimCB) Predicates(args *si.PredicatesArgs) error {
 	}
 	s.mu.Lock()
 	ok := true
-	if s.PredFlapP > 0 && s.rng.Bool(s.PredFlapP) {
-		ok = false
-		s.faults["predicate_flap"]++
+	if s.PredFlapP > 0 {
+		p := s.PredFlapP
+		// directed: the node holds a placeholder of the same application and task group as this real ask -
+		// refusing it there sends the replacement to another node
+		if m := s.Allocs[args.AllocationKey]; m != nil && !m.Placeholder && m.TaskGroup != "" {
+			for _, o := range s.Allocs {
+				if o.Placeholder && o.App == m.App && o.TaskGroup == m.TaskGroup && o.Node == args.NodeID && o.Status == stBound {
+					p = 0.45
+					break
+				}
+			}
+		}
+		if s.rng.Bool(p) {
+			ok = false
+			s.faults["predicate_flap"]++
+		}
 	}
 	side := ok && args.Allocate && s.SideEffectP > 0 && s.sideEffect != nil && s.rng.Bool(s.SideEffectP)
 	s.mu.Unlock()
